@@ -94,8 +94,13 @@ func main() {
 	rng := hx.NewRng(run.Seed)
 
 	all := allNamespaces()
-	full := func(kind string) Scenario { return Scenario{Kind: kind, HTTP: all, WS: all, Sweep: "full"} }
-	acc := func(kind string) Scenario { return Scenario{Kind: kind, HTTP: all, WS: all, Sweep: "accounts"} }
+	full := func(kind string, trs ...string) Scenario {
+		return Scenario{Kind: kind, HTTP: all, WS: all, Sweep: "full", Trs: trs}
+	}
+	lite := func(kind string) Scenario { return Scenario{Kind: kind, HTTP: all, WS: all, Sweep: "accounts-lite"} }
+	acc := func(kind string, trs ...string) Scenario {
+		return Scenario{Kind: kind, HTTP: all, WS: all, Sweep: "accounts", Trs: trs}
+	}
 	def := func(sweep string) Scenario { return Scenario{Kind: "pow", Sweep: sweep} }
 	wsall := func(sweep string) Scenario {
 		return Scenario{Kind: "pow", HTTP: []string{"personal", "aqua"}, WSAll: true, Sweep: sweep}
@@ -131,20 +136,40 @@ func main() {
 				}
 			}
 			// one child per heavy scenario so that they run in parallel (children of one env share nothing)
+			rot := func(k int) (string, []string) { // one transport gets the full sweep, the others the account-naming methods
+				i := int((run.Seed + uint64(k)) % 4)
+				var rest []string
+				for j, tr := range transports {
+					if j != i {
+						rest = append(rest, tr)
+					}
+				}
+				return transports[i], rest
+			}
+			ones := strings.Count(bits[:4], "1")
 			switch {
 			case run.Thorough():
-				add(bits, full("pow"))
-				add(bits, def("accounts"), wsall("accounts"))
-				add(bits, full("clique"))
+				for _, tr := range transports {
+					add(bits, full("pow", tr))
+				}
+				tc, rc := rot(e)
+				add(bits, full("clique", tc))
+				add(bits, acc("clique", rc...), def("accounts"), wsall("accounts"))
 			case bits == "00000":
-				add(bits, full("pow"))
-				add(bits, def("accounts"), wsall("accounts"))
-				add(bits, full("clique"))
+				t1, r1 := rot(0)
+				t2, r2 := rot(1)
+				add(bits, full("pow", t1))
+				add(bits, full("clique", t2))
+				add(bits, acc("pow", r1...), def("accounts"), wsall("accounts"))
+				add(bits, acc("clique", r2...))
 			case bits == "11111":
-				add(bits, full("pow"))
-				add(bits, def("none"), wsall("none"), acc("clique"))
+				t3, r3 := rot(2)
+				add(bits, full("pow", t3))
+				add(bits, acc("pow", r3...), def("none"), wsall("none"), acc("clique"))
+			case ones == 1 || ones == 3:
+				add(bits, lite("pow"))
 			default:
-				add(bits, acc("pow"))
+				add(bits, Scenario{Kind: "pow", HTTP: all, WS: all, Sweep: "none"})
 			}
 		}
 	}
@@ -278,13 +303,20 @@ func runChild(self, outDir, bits string, sc []Scenario, envv map[string]string, 
 			}
 		}
 		if inflight == "" {
-			res.err = fmt.Sprintf("child %s died outside a call (%v); see %s", bits, werr, dir)
-			res.recs = recs
-			res.spec = spec
-			return res
+			// died between two calls (a background goroutine of the node panicked): nobody to blame, continue after the calls done
+			res.crashes = append(res.crashes, "(between calls)")
+			if len(recs) == 0 || attempt >= 5 {
+				res.err = fmt.Sprintf("child %s died outside a call (%v); see %s", bits, werr, dir)
+				res.recs = recs
+				res.spec = spec
+				return res
+			}
+		} else {
+			spec.Skip = append(spec.Skip, inflight)
 		}
-		res.crashes = append(res.crashes, inflight)
-		spec.Skip = append(spec.Skip, inflight)
+		if inflight != "" {
+			res.crashes = append(res.crashes, inflight)
+		}
 		for k := range doneKeys {
 			if strings.HasPrefix(k, fmt.Sprintf("%d|", scen)) {
 				spec.Skip = append(spec.Skip, k)
@@ -332,6 +364,21 @@ func digest(run *hx.Run, r *childResult) {
 		}
 	}
 	hook := false
+	late := map[string]Rec{}
+	for _, rec := range r.recs {
+		if rec.T == "late" {
+			l := late[rec.Key]
+			l.Delta += rec.Delta
+			if rec.Evidence != "" {
+				if l.Evidence != "" {
+					l.Evidence += "+"
+				}
+				l.Evidence += rec.Evidence
+			}
+			l.Count = rec.Count
+			late[rec.Key] = l
+		}
+	}
 	signedOn := map[string]bool{} // transport -> some signature observed (pow scenarios)
 	calledOn := map[string]bool{}
 	for _, rec := range r.recs {
@@ -391,6 +438,17 @@ func digest(run *hx.Run, r *childResult) {
 				sep = "~"
 			}
 			m := rec.Ns + "." + rec.Name + sep + rec.Rcvr + "." + rec.GoName
+			if l, ok := late[rec.Key]; ok {
+				rec.Delta += l.Delta
+				rec.Count = l.Count
+				if l.Evidence != "" {
+					if rec.Evidence != "" {
+						rec.Evidence += "+"
+					}
+					rec.Evidence += l.Evidence
+				}
+				run.Count("late-mining-attributed")
+			}
 			obs := "quiet"
 			if rec.Evidence != "" {
 				obs = "signed"
@@ -416,7 +474,9 @@ func digest(run *hx.Run, r *childResult) {
 					signedOn[rec.Tr] = true
 				}
 			}
-			if hook && rec.Evidence != "" && rec.Delta == 0 {
+			// a block seal is produced asynchronously (the miner signs, the block is inserted later): for it only the cumulative counter is
+			// meaningful; every other kind of evidence is part of this call's own result
+			if hook && rec.Evidence != "" && ((rec.Evidence == "sealed" && rec.Count == 0) || (rec.Evidence != "sealed" && rec.Delta == 0)) {
 				run.Violate("hook-miss", "hook-miss "+m, map[string]interface{}{"env": r.bits, "scenario": sc, "transport": rec.Tr, "method": m, "variant": rec.Variant, "args": rec.Args},
 					"a keystore signature was observed ("+rec.Evidence+") but the verif signing counter did not move: a signing path bypasses the hooked entry points")
 			}
